@@ -9,6 +9,7 @@ import (
 	_ "verifharness/internal/c05"
 	_ "verifharness/internal/c06"
 	_ "verifharness/internal/c07"
+	_ "verifharness/internal/c08"
 	_ "verifharness/internal/c09"
 	_ "verifharness/internal/c10"
 	_ "verifharness/internal/c11"
